@@ -16,6 +16,17 @@ def load_known():
         return json.load(f).get('findings', [])
 
 
+_RUNNER = '''
+import sys, runpy, traceback
+try:
+    runpy.run_path(sys.argv[1], run_name="__main__")
+except SystemExit:
+    raise
+except BaseException:
+    sys.excepthook(*sys.exc_info()) if sys.excepthook is not sys.__excepthook__ else (traceback.print_exc(), sys.exit(3))
+'''
+
+
 class Report:
     """Collects obligations of one check run and writes /verif/evidence/<id>.json."""
 
@@ -68,8 +79,18 @@ class Report:
         path = os.path.join(d, '%s-%s-%s.py' % (self.pid, name, h))
         hdr = textwrap.dedent('''\
             #!/verif/.venv/bin/python
-            # replay for property %s obligation %s -- exits 1 if the violation reproduces on /repo's current tree
+            # replay for property %s obligation %s -- exits 1 if the violation reproduces on /repo's current tree, 0 if not,
+            # 3 if the replay itself fails (an uncaught exception is a harness error, never a reproduction)
             import sys; sys.path.insert(0, %r)
+            def _hook(t, v, tb):
+                # an exception escaping from the code under test is part of the observed behaviour (exit 1); one raised by the replay
+                # script or the harness library alone is a harness error (exit 3)
+                import traceback, os; traceback.print_exception(t, v, tb)
+                repo = os.path.join(os.environ.get('VERIF_REPO', '/repo'), 'python', 'digital_rf')
+                inreal = any(os.path.abspath(f.filename).startswith(repo) for f in traceback.extract_tb(tb))
+                print('uncaught %%s %%s' %% (t.__name__, 'raised while the code under test was running' if inreal else 'in the replay harness'))
+                sys.stdout.flush(); sys.stderr.flush(); os._exit(1 if inreal else 3)
+            sys.excepthook = _hook
             ''') % (self.pid, name, VERIF)
         with open(path, 'w') as f:
             f.write(hdr + body)
@@ -80,7 +101,7 @@ class Report:
         """returns (reproduced: bool|None, output)"""
         self.replays += 1
         try:
-            r = subprocess.run([sys.executable, path], stdout=subprocess.PIPE, stderr=subprocess.STDOUT, text=True, timeout=timeout)
+            r = subprocess.run([sys.executable, '-c', _RUNNER, path], stdout=subprocess.PIPE, stderr=subprocess.STDOUT, text=True, timeout=timeout)
         except subprocess.TimeoutExpired:
             return None, 'replay timeout'
         if r.returncode == 1:
@@ -116,6 +137,12 @@ class Report:
                 self.ob(obligation, 'known', bounds, queries, solver_s, paths, detail=what, sample=sample)
                 print('KNOWN-FINDING: property=%s %s [%s]' % (self.pid, k.get('what', what), what), flush=True)
                 return True
+        if path is None:
+            # confirmed on the real build by the check itself (no separate script): the replay re-runs this check
+            import re as _re
+            path = self.write_replay(_re.sub(r'[^A-Za-z0-9_.-]+', '_', obligation)[:60],
+                                     '# %s\n# %s\nimport subprocess, sys\nsys.exit(1 if subprocess.call([%r, %r, %r]) == 1 else 0)\n'
+                                     % (obligation.replace('\n', ' ')[:300], what.replace('\n', ' ')[:600], os.path.join(VERIF, 'check'), self.pid, self.tier))
         self.violations.append((obligation, sig, what, path))
         self.ob(obligation, 'violated', bounds, queries, solver_s, paths, detail=what, sample=sample)
         print('VIOLATION property=%s replay=%s' % (self.pid, path), flush=True)
